@@ -34,6 +34,8 @@ class C01(SysBase):
                 beh = rng.choice(["corrupt %d" % rng.randrange(1, 4), "wrongoffset %d" % rng.randrange(1, 3), "dup", "swap", "swap",
                                   "garbage %d" % rng.randrange(1, 6), "dropafter %d" % rng.randrange(1, 9), "honest", "slow"])
                 peers.append((bits, beh))
+            if rng.random() < 0.3:        # a remote that downloads from the client meanwhile (reads the stored pieces back)
+                peers.append(("0" * n, "leech %d" % rng.choice([0, 1])))
             cases.append(self.mk(rng.randrange(1, 10 ** 6), pl, flens, peers, "adversarial", False))
         return cases
 
